@@ -20,7 +20,7 @@ pub fn def() -> PropDef {
             "FromF_Zero", "FromF_Subnormal", "FromF_PowNeg", "FromF_PowZero", "FromF_PowPos",
             "ToF64_Zero", "ToF64_Scale0", "ToF64_Trim", "ToF64_Powi", "ToF64_String", "ToF64_Infinity",
         ],
-        rule: "f32: enumerated bit patterns (quick: every exponent field x 65536 mantissas incl. 0, 1, max, alternating sign = 2^24 patterns; thorough: all 2^32), each through try_from / from_f32 with an exact check decimal == mantissa * 2^e (table of powers of five), NaN/inf => error, and back through to_f64 / to_f32 bit for bit; f64: exponent fields {0,1,2,1022..1025,2045,2046,2047} x random mantissas, mantissas of all ones/zeros, random f64, values 2^k and 2^k +- 1ulp across 2^52..2^70; to_f64 of arbitrary decimals: 1..400 digits with exponents -400..400, exact midpoints between adjacent floats +- 1 unit far down, neighbourhoods of f64::MAX (digits x 10^n forms up to 1.8e308), MIN_POSITIVE and the smallest subnormal, judged by exact rational inequalities (relative error <= 2^-48 in the normal range, infinity only beyond or within tolerance of MAX, one subnormal step below). distinct = distinct bit patterns / decimals (enumerated ones are distinct by construction); non-trivial = finite non-zero float or non-zero decimal",
+        rule: "f32: enumerated bit patterns (quick: every exponent field x 65536 mantissas incl. 0, 1, max, alternating sign = 2^24 patterns; thorough: all 2^32), each through try_from / from_f32 with an exact check decimal == mantissa * 2^e (table of powers of five), NaN/inf => error, and back through to_f64 / to_f32 bit for bit; f64: exponent fields {0,1,2,1022..1025,2045,2046,2047} x random mantissas, mantissas of all ones/zeros, random f64, values 2^k and 2^k +- 1ulp across 2^52..2^70; to_f64 of arbitrary decimals: 1..400 digits with exponents -400..400, exact midpoints between adjacent floats +- 1 unit far down, neighbourhoods of f64::MAX (digits x 10^n forms up to 1.8e308), MIN_POSITIVE and the smallest subnormal, short coefficients (1, 2, 5, 10, 1..999) at exponents +-300..420 (1e309, 9e307, 5e-324, 1e-400), judged by exact rational inequalities (relative error <= 2^-48 in the normal range, infinity only beyond or within tolerance of MAX, one subnormal step below). distinct = distinct bit patterns / decimals (enumerated ones are distinct by construction); non-trivial = finite non-zero float or non-zero decimal",
     }
 }
 
@@ -294,7 +294,14 @@ fn judge_float_result(ctx: &mut Ctx, case: &Case, t: &Dec, g: f64) {
 
 fn gen_decimal_for_to_f64(r: &mut Rng) -> Dec {
     let tb = tables();
-    match r.below(10) {
+    match r.below(11) {
+        10 => {
+            // short coefficients (1, 2, 5, 9, 10, 100, 1..999) at decades on both sides of the f64 range limits:
+            // 1e309, 1e400, 9e307, 2e308, 1e-323, 5e-324, 3e-324, 1e-400 ...
+            let c = match r.below(3) { 0 => 1, 1 => *r.pick(&[1i64, 2, 3, 4, 5, 9, 10, 100, 1000, 25, 17, 18]), _ => r.range(1, 999) };
+            let e = match r.below(4) { 0 => r.range(300, 330), 1 => r.range(300, 420), 2 => -r.range(300, 330), _ => -r.range(300, 420) };
+            Dec::new(BigInt::from(if r.bool() { -c } else { c }), -e)
+        }
         0 | 1 => {
             // exact midpoints between adjacent floats, +- one unit far down
             let bits = (r.next() & 0x7fff_ffff_ffff_ffff) % 0x7fe0_0000_0000_0000;
